@@ -97,6 +97,8 @@ def correspond(ctx):
       n_sc += 1
       ctx.bump('side-condition-violated:' + ('SC1' if code & K.B_SC1 else '') + ('SC2' if code & K.B_SC2 else ''))
     ctx.bump('theorem-hypotheses-hold' if not code & K.B_NOTHM else 'outside-proved-class')
+    if not code & K.B_NOTHM and code & K.B_NOTHM2:
+      ctx.bump('theorem-hypotheses-hold:stage3-only')
     if not code & K.B_NOTHM and code & K.B_MUNDO:
       # C01_undo_restores_docs_calcs_partial applies to this very trace and the model agrees with the engine on it,
       # yet replaying the engine's undo list does not restore: impossible unless model and engine outputs differ
